@@ -89,8 +89,9 @@ theorem numCh_ne_space (c : Char) (h : numCh c = true) : c ≠ ' ' := by
 theorem isDig_ne_space (c : Char) (h : isDig c = true) : c ≠ ' ' := by
   intro e; subst e; revert h; decide
 
-/-- hypotheses for one Graphite line: the prefix (inserted raw) is in the path alphabet, the path is not empty,
-the value is a number, the clock is not negative -/
+/-- hypotheses for one Graphite line.  Known finding G2: the path is not empty (prefix or sample name non-empty).
+Preconditions, not findings: the `prefix` argument of `push` — operator configuration, outside the property's
+quantifier, inserted raw — is in the path alphabet; the value is a number token; the clock is not negative -/
 def graphiteOK (prefixstr : Str) (now : Int) (s : Sample) : Bool :=
   prefixstr.all pathCh && (!prefixstr.isEmpty || !s.name.isEmpty) && floatTok s.value && decide (0 ≤ now)
 
